@@ -237,6 +237,19 @@ def _ref_ds(spec, o, env):
         value = ("cb", value)
     for i in range(ex.get("effects", 0)):
         env_hit(env, "eff", "eff%d:%s" % (i, name), value)
+    if ex.get("effect_opt"):
+        # an effect (pipeline step) that needs its own option; skipped when effects are disabled by option
+        disabled = False
+        try:
+            disabled = bool(ref_lookup(o2, "LABREA.EFFECTS.DISABLED"))
+        except Absent:
+            pass
+        if not disabled:
+            try:
+                ref_resolve(ref_lookup(o2, ex["effect_opt"]), o2)
+            except Absent as e:
+                raise RefFail("missing", e.key)
+            env_hit(env, "eff", "effopt:%s" % name, value)
     return value
 
 
@@ -309,6 +322,8 @@ def build(spec, env):
                 kw["callback"] = _mk_callback(name, env)
             if ex.get("effects"):
                 kw["effects"] = [_mk_effect(i, name, env) for i in range(ex["effects"])]
+            if ex.get("effect_opt"):
+                kw["effects"] = list(kw.get("effects", [])) + [_mk_opt_effect(name, ex["effect_opt"], env)]
             factory = dataset.nocache if ex.get("cache", "mem") == "no" else dataset
             if ex.get("abstract"):
                 kw["abstract"] = True
@@ -421,6 +436,17 @@ def _mk_callback(name, env):
 def _mk_effect(i, name, env):
     def eff(x):
         env.hit("eff", "eff%d:%s" % (i, name), x)
+
+    return eff
+
+
+def _mk_opt_effect(name, key, env):
+    from labrea import Option
+    from labrea.pipeline import pipeline_step
+
+    @pipeline_step
+    def eff(x, tag=Option(key)):
+        env.hit("eff", "effopt:%s" % name, x)
 
     return eff
 
